@@ -17,6 +17,8 @@ val pred : nat -> nat
 
 val add : nat -> nat -> nat
 
+val mul : nat -> nat -> nat
+
 val sub : nat -> nat -> nat
 
 val eqb : bool -> bool -> bool
@@ -232,6 +234,7 @@ type event =
 | EvBroker of aid * bwhat * aid * hid
 | EvTopicOp of oid * nat * topk * nat * nat
 | EvTopicRet of oid * bool
+| EvBcastEnd of aid * nat
 
 val dec_bool : nat -> bool
 
@@ -707,3 +710,23 @@ val m09_step : m09 -> event -> m09 option
 val m09_run : m09 -> event list -> m09 option
 
 val chk_C09 : event list -> bool
+
+type trec = { r_kind : tkind; r_d : nat; r_t0 : nat; r_n : nat; r_last : nat }
+
+type m10 = { xnow : nat; xt : trec list map0 }
+
+val m10_init : m10
+
+val xtimers : m10 -> aid -> trec list
+
+val set_nth10 : trec list -> nat -> trec -> trec list
+
+val fired : nat -> trec -> trec
+
+val fire_ok : nat -> trec -> bool
+
+val m10_step : m10 -> event -> m10 option
+
+val m10_run : m10 -> event list -> m10 option
+
+val chk_C10 : event list -> bool
